@@ -3,6 +3,7 @@ mod props;
 mod refmath;
 mod run;
 mod util;
+mod vsim;
 mod world;
 
 use run::{drive, replay_one, Property, Tier};
@@ -10,6 +11,8 @@ use std::path::Path;
 
 fn with_prop(id: &str, f: &mut dyn FnMut(&dyn Runner) -> i32) -> i32 {
     match id {
+        "C01" => f(&props::c01::C01),
+        "C17" => f(&props::c17::C17),
         "C19" => f(&props::c19::C19),
         _ => {
             println!("unknown or unclaimed property {}", id);
